@@ -17,22 +17,23 @@ import (
 )
 
 type Config struct {
-	MaxSteps    int
-	MaxDepth    int
-	Trace       bool
-	MapOrder    string
-	Solver      string
-	TimeoutMs   int
-	Workers     int
-	MaxPaths    int
-	MaxViol     int
-	ResetEvery  int
-	Params      map[string]int64
-	Concrete    map[string]replayInput // selftest: inputs come from here
-	Known       map[string]bool
-	CrossSolver string // thorough tier: re-discharge solver-decided obligations with this solver, one-shot
-	CrossMax    int
-	Stubs       map[string]*ssa.Function // full name of a replaced function -> harness function (DESIGN 3.6(6))
+	MaxSteps       int
+	MaxDepth       int
+	Trace          bool
+	MapOrder       string
+	Solver         string
+	TimeoutMs      int
+	Workers        int
+	MaxPaths       int
+	MaxViol        int
+	ResetEvery     int
+	Params         map[string]int64
+	Concrete       map[string]replayInput // selftest: inputs come from here
+	Known          map[string]bool
+	CrossSolver    string // thorough tier: re-discharge solver-decided obligations with this solver, one-shot
+	CrossMax       int
+	CrossTimeoutMs int
+	Stubs          map[string]*ssa.Function // full name of a replaced function -> harness function (DESIGN 3.6(6))
 }
 
 // Dec is one recorded decision; K carries the candidate value of a concretisation so
@@ -229,7 +230,7 @@ func (e *Engine) crossCheck(neg *Term, label string) {
 	e.x.crossDone++
 	e.x.mu.Unlock()
 	asserts := append(append([]*Term{}, e.frameTerms[:e.frames]...), neg)
-	r := OneShot(e.cfg.CrossSolver, Script(e.tt, e.solver.preamble, asserts), e.cfg.TimeoutMs)
+	r := OneShot(e.cfg.CrossSolver, Script(e.tt, e.solver.preamble, asserts), e.cfg.CrossTimeoutMs)
 	e.x.mu.Lock()
 	defer e.x.mu.Unlock()
 	switch r {
